@@ -145,4 +145,27 @@ func (s *sim) checkSchedule() {
 			prev = r
 		}
 	}
+	// far future: around every halving boundary up to the 100th (the subsidy
+	// has long reached zero there; it must stay non-negative and non-increasing)
+	if iv := cfg.HalvingRewardInterval; iv > 0 {
+		for k := uint32(6); k <= 100; k++ {
+			for _, h := range []uint32{cfg.HalvingRewardHeight + k*iv - 1, cfg.HalvingRewardHeight + k*iv, cfg.HalvingRewardHeight + k*iv + 1} {
+				if h <= last {
+					continue // heights are probed in increasing order only
+				}
+				last = h
+				r := cfg.GetBlockReward(h)
+				if r < 0 {
+					c.Violate("C11", "schedule", "C11/subsidy-negative", "GetBlockReward(%d) = %d (%d halvings after height %d)", h, r, k, cfg.HalvingRewardHeight)
+					return
+				}
+				if r > prev {
+					c.Violate("C11", "schedule", "C11/subsidy-increases", "GetBlockReward(%d) = %d > %d at the previous boundary probe (halving from %d every %d)", h, r, prev, cfg.HalvingRewardHeight, iv)
+					return
+				}
+				prev = r
+			}
+		}
+		c.Probe("subsidy-swept-to-100-halvings")
+	}
 }
